@@ -155,6 +155,10 @@ def configs(tier):
             for pat in patterns(ks, edges, tier != 'quick')[:(4 if tier == 'quick' else None)]:
                 out.append(dict(kinds=ks, edges=pat,
                                 seqs=('all', 1 if tier == 'quick' else 2, ('valid',))))
+    # the same with debugging switched on in every block (the event path differs)
+    dbg = [c for c in out if len(c['kinds']) == 1]
+    dbg += [c for i, c in enumerate(c for c in out if len(c['kinds']) == 2) if i % 4 == 0]
+    out += [dict(c, debug=True) for c in dbg]
     for c in out:
         c['gated'] = True
     # events generated during start-up are NOT gated off: initialisation by events, early
@@ -486,6 +490,9 @@ def build(cfg, gate):
             j = fw[0][1]
             blk = edzed.Repeat(names[i], dest=names[j], etype=etype_of(kinds, edges, i), interval=100000, **kw)
         blocks.append(blk)
+    if cfg.get('debug'):
+        for blk in blocks + [sink]:
+            blk.debug = True
     del sink, n
     return blocks
 
@@ -659,7 +666,7 @@ def run_seq(cfg, seq, acc):
 
 
 def cfg_key(cfg):
-    return (cfg['kinds'], cfg['edges'], cfg['gated'])
+    return (cfg['kinds'], cfg['edges'], cfg['gated'], bool(cfg.get('debug')))
 
 
 def run_config(cfg):
